@@ -257,8 +257,9 @@ func handleConn(conn net.Conn, conf *Config) error {
 
 	log.Print("reading frames")
 
-	frameLogIntervalFirstMin *= headerInfo.FPS()
-	frameLogInterval *= headerInfo.FPS()
+	// Per connection: the package-level values are in seconds and must not be compounded on every reconnect.
+	frameLogIntervalFirstMin := frameLogIntervalFirstMin * headerInfo.FPS()
+	frameLogInterval := frameLogInterval * headerInfo.FPS()
 	rawFrame := make([]byte, headerInfo.FrameSize())
 	for {
 		_, err := io.ReadFull(reader, rawFrame[:5])
